@@ -273,6 +273,7 @@ func init() {
 			{Name: "lengths", TShards: 4, Run: c01Lengths},
 			{Name: "lists", QShards: 2, TShards: 8, Run: c01Lists},
 			{Name: "sizes", QShards: 2, TShards: 8, Run: c01Sizes},
+			{Name: "prefixes", Run: prefixUnit("fasta", false, 0)},
 		},
 	})
 }
